@@ -16,6 +16,7 @@ pub use crate::vinterp::*;
 pub use crate::vworld::*;
 pub use crate::vstdx::*;
 pub use crate::vspec_nonce::*;
+pub use crate::vspec_codec::*;
 verus! {
 //@module_serves ALL
 
